@@ -1204,6 +1204,23 @@ func (fv *FuncVerifier) utf8Axioms() {
 }
 
 func (fv *FuncVerifier) doReturn(st *State, r *ssa.Return) {
+	if fv.inlineRets != nil {
+		// inlined callee: hand the state and the results back to the call site
+		var ls []Term
+		for _, v := range r.Results {
+			rv := st.get(v)
+			if rv.Place != nil && rv.Place.Kind == PLocal {
+				rv = st.promote(rv)
+			}
+			if rv.Clo != nil {
+				panic(unsupported("inlined callee returns a closure"))
+			}
+			ls = append(ls, rv.L...)
+		}
+		st.inlineResult = Value{Typ: resultType(fv.fn.Signature), L: ls}
+		*fv.inlineRets = append(*fv.inlineRets, st)
+		return
+	}
 	fv.retStates++
 	idx := fv.retOrd[r]
 	var results []Value
